@@ -51,7 +51,7 @@ LEVEL_NOTE = ("Trusted: Lean kernel + 3 standard axioms; harness/oracle; json.lo
 SPS = [
     {"a": 1}, {"a": 2}, {"b": "x", "a": 0}, {"n": {"k": [1, 2.5, None]}, "s": "é"}, {"f": 0.1, "t": True},
     {"a": 10}, {"a": "1"}, {"long": "abcdefghij" * 3, "z": -3}, {"u": "☃ snow", "e": ""}, {"l": [[1], {"m": 2}]},
-    {"a": 1.0}, {"x": 123456789012, "y": 1e-7},
+    {"a": 1.0}, {"x": 123456789012, "y": 1e-7}, {},
 ]
 BYTE_CLASSES = {
     "digit": b"7", "letter": b"q", "quote": b'"', "brace": b"}", "bracket": b"]", "comma": b",", "colon": b":",
